@@ -106,6 +106,8 @@ pub struct TransformerContext {
     pending_ids: HashSet<String>,
     /// ids of elements which have been evaluated successfully at least once
     completed_ids: HashSet<String>,
+    /// ids which are written out literally in the document
+    literal_ids: HashSet<String>,
     /// number of elements of the output whose content is being processed
     open_output_elements: u32,
     /// Stack of elements which have been started but not yet ended
@@ -141,6 +143,7 @@ impl Default for TransformerContext {
             original_map: HashMap::new(),
             pending_ids: HashSet::new(),
             completed_ids: HashSet::new(),
+            literal_ids: HashSet::new(),
             open_output_elements: 0,
             element_stack: Vec::new(),
             prev_element: None,
@@ -533,6 +536,11 @@ impl TransformerContext {
     /// target, but not (yet) as the target of a reference. Returns the id used.
     pub fn register_pending(&mut self, el: &mut SvgElement) -> Option<String> {
         let id = el.get_attr("id")?;
+        // An id written out in the document (rather than computed) is one of a fixed,
+        // finite set; see `progress()`.
+        if !(id.contains(crate::constants::VAR_PREFIX) || id.contains("{{")) {
+            self.literal_ids.insert(id.clone());
+        }
         let id = eval_attr(&id, self).unwrap_or(id);
         // The element keeps the evaluated id, so that an expression in it is
         // evaluated once rather than again with the element's other attributes.
@@ -545,11 +553,15 @@ impl TransformerContext {
     /// The element registered under `id` has been evaluated.
     pub fn clear_pending(&mut self, id: &str) {
         self.pending_ids.remove(id);
-        self.completed_ids.insert(id.to_owned());
+        if self.literal_ids.contains(id) {
+            self.completed_ids.insert(id.to_owned());
+        }
     }
 
-    /// A measure of progress which only ever grows: the number of distinct elements
-    /// (with an id) evaluated successfully so far, at any nesting level.
+    /// A measure of progress which only ever grows, and not without bound: the number
+    /// of distinct elements, among those whose id is written out in the document,
+    /// evaluated successfully so far at any nesting level. (Computed ids don't count:
+    /// a retried element may produce a new one at every attempt.)
     pub fn progress(&self) -> usize {
         self.completed_ids.len()
     }
